@@ -111,24 +111,62 @@ func roundKey(c model3d.Coord3D) [3]int64 {
 	return [3]int64{int64(math.Round(c.X * 1e8)), int64(math.Round(c.Y * 1e8)), int64(math.Round(c.Z * 1e8))}
 }
 
+// sameVertexSet: the vertices of m are the points of want (repetitions in want allowed), each to within 1e-8.
+// Decided by distance, not by comparing rounded coordinates: the library and the reference add the same numbers
+// in different orders (map iteration), and a coordinate such as 0.035546875 sits exactly on a rounding boundary of
+// the 1e-8 grid, where a difference in the last bit used to flip the verdict.
 func sameVertexSet(m *model3d.Mesh, want []model3d.Coord3D) bool {
-	a := map[[3]int64]bool{}
-	for _, v := range m.VertexSlice() {
-		a[roundKey(v)] = true
+	const tol = 1e-8
+	// candidates by grid cell of 4 * tol; a point within tol lies in the same or an adjacent cell
+	cell := func(c model3d.Coord3D) [3]int64 {
+		return [3]int64{int64(math.Floor(c.X / (4 * tol))), int64(math.Floor(c.Y / (4 * tol))), int64(math.Floor(c.Z / (4 * tol)))}
 	}
-	b := map[[3]int64]bool{}
-	for _, v := range want {
-		b[roundKey(v)] = true
-	}
-	if len(a) != len(b) {
+	near := func(grid map[[3]int64][]model3d.Coord3D, c model3d.Coord3D) bool {
+		k := cell(c)
+		for dx := int64(-1); dx <= 1; dx++ {
+			for dy := int64(-1); dy <= 1; dy++ {
+				for dz := int64(-1); dz <= 1; dz++ {
+					for _, p := range grid[[3]int64{k[0] + dx, k[1] + dy, k[2] + dz}] {
+						if p.Dist(c) <= tol {
+							return true
+						}
+					}
+				}
+			}
+		}
 		return false
 	}
-	for k := range a {
-		if !b[k] {
+	for _, c := range want {
+		if math.IsNaN(c.X+c.Y+c.Z) || math.IsInf(c.X+c.Y+c.Z, 0) {
 			return false
 		}
 	}
-	return true
+	have := m.VertexSlice()
+	hg := map[[3]int64][]model3d.Coord3D{}
+	for _, v := range have {
+		if math.IsNaN(v.X+v.Y+v.Z) || math.IsInf(v.X+v.Y+v.Z, 0) {
+			return false
+		}
+		hg[cell(v)] = append(hg[cell(v)], v)
+	}
+	wg, dg := map[[3]int64][]model3d.Coord3D{}, map[[3]int64][]model3d.Coord3D{}
+	distinct := 0
+	for _, w := range want {
+		if !near(dg, w) { // repetitions of a wanted point count once
+			distinct++
+			dg[cell(w)] = append(dg[cell(w)], w)
+		}
+		wg[cell(w)] = append(wg[cell(w)], w)
+		if !near(hg, w) {
+			return false
+		}
+	}
+	for _, v := range have {
+		if !near(wg, v) {
+			return false
+		}
+	}
+	return distinct == len(have)
 }
 
 func neighbours(m *model3d.Mesh, v model3d.Coord3D) []model3d.Coord3D {
